@@ -1,5 +1,5 @@
 (* MgrProofs.v — proofs about MgrModel (C61). *)
-Require Import SquidV.Bytes SquidV.TokModel SquidV.TokProofs SquidV.B64Model SquidV.MgrModel.
+Require Import SquidV.Bytes SquidV.TokModel SquidV.TokProofs SquidV.Int64Proofs SquidV.B64Model SquidV.MgrModel.
 Require Import SquidV.gen.Mgr_gen.
 Require Import ZifyBool ZifyN ZifyNat.
 Local Open Scope N_scope.
@@ -630,6 +630,94 @@ Proof.
   - right; reflexivity.
   - left; reflexivity.
   - constructor; [|constructor]. intros [H|H]; cbn in H; destruct H as [H|[]]; discriminate H.
+Qed.
+
+(* ------------------------------------------------------------------ *)
+(* the fuel of the two QueryParams loops is always sufficient            *)
+
+Lemma length_dropN_le {A} n (l : list A) : (length (dropN n l) <= length l)%nat.
+Proof.
+  revert n; induction l as [|x l IH]; intros n; cbn [dropN length]; [lia|].
+  destruct (n =? 0); cbn [length]; [lia|]. specialize (IH (N.pred n)). lia.
+Qed.
+
+Lemma length_dropN_lt {A} n (l : list A) : 1 <= n -> l <> [] -> (length (dropN n l) < length l)%nat.
+Proof.
+  intros Hn Hl. destruct l as [|x l]; [congruence|]. cbn [dropN length].
+  destruct (n =? 0) eqn:E; [apply N.eqb_eq in E; lia|]. pose proof (length_dropN_le (N.pred n) l). lia.
+Qed.
+
+Lemma int64_progress limit buf v n : tok_int64 10 false limit buf = Some (v, n) -> 1 <= n /\ buf <> [].
+Proof.
+  rewrite Int64Proofs.tok_int64_dec_unsigned. intros H. split.
+  - destruct (digit_run 10 (takeN limit buf)) as [|d ds]; [discriminate|].
+    cbv zeta in H. destruct (_ >? _)%Z; [discriminate|]. injection H as _ Hn. subst n. cbn [lenN]. lia.
+  - intros E. subst buf. cbn in H. discriminate.
+Qed.
+
+Lemma param_value_fuel f : forall buf, (length buf < f)%nat -> param_value f buf <> TFuel.
+Proof.
+  induction f as [|f IH]; intros buf Hf; [lia|]. cbn [param_value].
+  destruct (tok_int64 10 false npos buf) as [[v n]|] eqn:E; [|discriminate].
+  destruct ((v <? -2147483648) || (v >? 2147483647))%Z; [discriminate|].
+  destruct (int64_progress _ _ _ _ E) as [Hn Hb].
+  pose proof (length_dropN_lt n buf Hn Hb) as Hlt.
+  apply IH.
+  destruct (1 <? lenN (dropN n buf)); [|lia].
+  unfold tok_skipOne. destruct (dropN n buf) as [|c r]; cbn [snd length] in *; [lia|].
+  destruct (is_comma c); cbn [snd length]; lia.
+Qed.
+
+Lemma span_lengths {A} (p : A -> bool) l : (length (fst (span p l)) + length (snd (span p l)) = length l)%nat.
+Proof. rewrite <- app_length, span_app. reflexivity. Qed.
+
+Lemma query_parse_fuel f : forall buf, (length buf < f)%nat -> query_parse f buf <> QFuel.
+Proof.
+  induction f as [|f IH]; intros buf Hf; [lia|]. cbn [query_parse].
+  destruct buf as [|c buf']; [discriminate|].
+  destruct (c =? 35); [discriminate|].
+  remember (c :: buf') as buf eqn:Hbuf. clear Hbuf c buf'.
+  destruct (tok_skipAll is_amp buf) as [k b1] eqn:Es.
+  rewrite tok_skipAll_spec in Es. injection Es as Hk Hb1.
+  destruct (negb (k =? 0)) eqn:Ek.
+  - apply IH. pose proof (span_lengths is_amp buf) as Hl. rewrite Hb1 in Hl.
+    destruct (fst (span is_amp buf)) as [|y ys]; [cbn [lenN] in Hk; subst k; discriminate Ek|].
+    cbn [length] in Hl. lia.
+  - destruct (tok_prefix name_chars npos buf) as [[nm b2]|] eqn:E1; [|discriminate].
+    apply tok_prefix_sound in E1. destruct E1 as (Happ1 & Hne1 & _).
+    unfold tok_skipChar. destruct b2 as [|d b3]; [discriminate|].
+    destruct (d =? 61); [|discriminate].
+    destruct (tok_prefix value_chars npos b3) as [[v b4]|] eqn:E2; [|discriminate].
+    apply tok_prefix_sound in E2. destruct E2 as (Happ2 & Hne2 & _).
+    pose proof (param_value_fuel (S (length v)) v ltac:(lia)) as Hpv.
+    destruct (param_value (S (length v)) v); [|discriminate|congruence].
+    apply IH. rewrite <- Happ1, <- Happ2 in Hf. rewrite !app_length in Hf. cbn [length] in Hf.
+    rewrite app_length in Hf. destruct nm; [congruence|]. cbn [length] in Hf. lia.
+Qed.
+
+Lemma parse_url_fuel menu pl path : parse_url menu pl path <> UFuel.
+Proof.
+  unfold parse_url. destruct (tok_skip mgr_prefix path) as [[|] b0]; [|discriminate].
+  destruct (match tok_prefix _ npos b0 with Some (a, b) => (a, b) | None => (kw_index, b0) end) as [name b1].
+  destruct (find_action menu name) as [a|]; [|discriminate].
+  destruct (action_protection pl a); try discriminate;
+    (destruct (tok_skipChar 63 b1) as [[|] b2];
+     [pose proof (query_parse_fuel (S (length b2)) b2 ltac:(lia)) as Hq;
+      destruct (query_parse (S (length b2)) b2) as [b3| |]; [|discriminate|congruence]
+     |set (b3 := b1)];
+     (destruct b3 as [|c b3']; [discriminate|destruct (c =? 35); discriminate])).
+Qed.
+
+Lemma handle_fuel e menu pl rules q : handle e menu pl rules q <> RFuel.
+Proof.
+  unfold handle.
+  destruct (negb (url_check_request _ _)); [discriminate|].
+  destruct (negb (access_allowed _ _ _)); [discriminate|].
+  destruct (negb (is_internal e q)); [discriminate|].
+  destruct (negb (for_cache_manager q)); [discriminate|].
+  pose proof (parse_url_fuel menu pl (q_path q)) as Hp.
+  destruct (parse_url menu pl (q_path q)) as [a| |]; [|discriminate|congruence].
+  destruct (check_password pl a _); [discriminate|]. destruct (list_eqb _ _); discriminate.
 Qed.
 
 (* ------------------------------------------------------------------ *)
